@@ -340,14 +340,14 @@ def _run_loss(case, lose_at):
                 if live:
                     c = live[op[1] % len(live)]
                     c['done'] = True
-                    N.deliver(rig.conn, R.encode_message(2, 900, {5: c['serial']}))
+                    N.deliver(rig.conn, R.encode_variant(c['serial'], 2, 900, {5: c['serial']}))
             elif k == 'error_reply':
                 live = [c for c in calls if not c['done']]
                 if live:
                     c = live[op[1] % len(live)]
                     c['done'] = True
                     body = ('s', ['failed']) if op[1] % 2 else ('', [])
-                    N.deliver(rig.conn, R.encode_message(3, 903, {5: c['serial'], 4: 'org.verif.Error.E'}, *body))
+                    N.deliver(rig.conn, R.encode_variant(c['serial'] + 1, 3, 903, {5: c['serial'], 4: 'org.verif.Error.E'}, *body))
             elif k == 'call_noreply':
                 # fire and forget, with a (pointless but legal) deadline: it concludes at once and leaves nothing behind
                 r = []
